@@ -72,9 +72,18 @@ func H_C15_StreamWriter() {
 	var accK, accV [][]byte
 	for c := 0; c < n; c++ {
 		k := vrt.Bytes(vrt.K("k", c), 1)
+		// one symbolic byte | nil | (first two calls) empty but not nil, which is a value and not a nil value
 		var v []byte
-		if vrt.Choose(vrt.K("v", c, "nil"), 2) == 0 {
+		kinds := 2
+		if c < 2 {
+			kinds = 3
+		}
+		switch vrt.Choose(vrt.K("v", c, "nil"), kinds) {
+		case 0:
 			v = []byte{vrt.Byte(vrt.K("v", c))}
+		case 2:
+			v = []byte{}
+			vrt.Tag("empty-value")
 		}
 		fault := vrt.Choose(vrt.K("fault", c), 3) // none | data append fails | index append fails
 		fd.fail = fault == 1
